@@ -77,3 +77,18 @@ func readInputs(path string) []json.RawMessage {
 	}
 	return f.Inputs
 }
+
+// A call that ran into the watchdog leaves a goroutine spinning (possibly allocating).  The driver
+// therefore stops at once after recording it: finishHook flushes what has been written so far.
+var finishHook func()
+var timedOut bool
+
+func abortOnTimeout(res string) {
+	if res == "timeout" {
+		timedOut = true
+		if finishHook != nil {
+			finishHook()
+		}
+		os.Exit(0)
+	}
+}
